@@ -11,11 +11,11 @@ CONSTANTS
   Modes = {"bin"}
   Protos = {1, 4}
   Secs = {2, 3, 20}
-  MaxChunks = 2
+  MaxChunks = 1
   P1MaxChunks = 21
   MaxFiles = 1
   MaxPauses = 0
-  StartSizes = {1024, 4096, 1048576, 10485760, 1073741824}
+  StartSizes = {1048576, 1073741824}
   Variant = "coded"
 INVARIANTS Export NeverRejectedByReceiver
 CHECK_DEADLOCK FALSE
